@@ -146,9 +146,28 @@ class TokenizerAnalysis:
             s.gen = I.methods[cands[0].func.attr]
             s.gen_call = cands[0]
         loops = [n for n in s.gen.body if isinstance(n, ast.While)]
+        if not loops:
+            fused = s.fuse_frame_generator(s.gen)
+            if fused is not None:
+                s.gen = fused
+                I.methods[fused.name] = fused
+                loops = [n for n in s.gen.body if isinstance(n, ast.While)]
         if len(loops) != 1:
             raise AnalysisError('token generator %s: expected exactly one top-level `while` loop' % s.gen.name)
         loop = loops[0]
+        if not (isinstance(loop.test, ast.Constant) and loop.test.value in (True, 1)) and not loop.orelse:
+            # `while C: BODY` is `while True: if not C: break; BODY` (C may bind names with :=)
+            import copy
+            guard = ast.If(test=ast.UnaryOp(op=ast.Not(), operand=loop.test), body=[ast.Break()], orelse=[])
+            new_loop = ast.While(test=ast.Constant(value=True), body=[guard] + list(loop.body), orelse=[])
+            ast.copy_location(new_loop, loop)
+            ast.copy_location(guard, loop)
+            ast.fix_missing_locations(new_loop)
+            g2 = copy.copy(s.gen)
+            g2.body = [new_loop if b is loop else b for b in s.gen.body]
+            s.gen = g2
+            I.methods[g2.name] = g2
+            loop = new_loop
         if not (isinstance(loop.test, ast.Constant) and loop.test.value in (True, 1)):
             raise AnalysisError('token generator %s: loop condition is not constant True' % s.gen.name)
         if loop.orelse:
@@ -164,6 +183,75 @@ class TokenizerAnalysis:
         if len(gp) != 1:
             raise AnalysisError('token generator %s should take exactly the data source' % s.gen.name)
         s.src_param = gp[0]
+
+    def fuse_frame_generator(s, gen):
+        """`for T in self.g(args): BODY` at the top level of the token generator, where g is a generator method of the class of the
+        form `PRE; while True: S1; yield E; S2` -- the same loop written in one piece is `PRE; while True: S1; T = E; BODY; S2`
+        (a `return` inside g's loop ends the iteration: `break`).  Returns the rewritten FunctionDef (a copy) or None."""
+        import copy
+        I = s.I
+        fors = [n for n in gen.body if isinstance(n, ast.For)]
+        if len(fors) != 1 or fors[0].orelse:
+            return None
+        f = fors[0]
+        it = f.iter
+        if not (isinstance(it, ast.Call) and isinstance(it.func, ast.Attribute) and isinstance(it.func.value, ast.Name) and it.func.value.id == 'self' and it.func.attr in I.methods) or it.keywords:
+            return None
+        g = I.methods[it.func.attr]
+        if any(isinstance(x, (ast.Break, ast.Continue, ast.Return)) for st in f.body for x in ast.walk(st)):
+            return None
+        gbody = [b for b in g.body if not (isinstance(b, ast.Expr) and isinstance(b.value, ast.Constant))]
+        wl = [b for b in gbody if isinstance(b, ast.While)]
+        if len(wl) != 1 or gbody[-1] is not wl[0] or wl[0].orelse:
+            return None                      # nothing may follow g's loop (a `return` in it becomes `break`)
+        w = wl[0]
+        ys = [i for i, b in enumerate(w.body) if isinstance(b, ast.Expr) and isinstance(b.value, ast.Yield)]
+        all_y = [x for x in ast.walk(g) if isinstance(x, (ast.Yield, ast.YieldFrom))]
+        if len(ys) != 1 or len(all_y) != 1 or w.body[ys[0]].value.value is None:
+            return None
+        gparams = [a.arg for a in g.args.args][1:]
+        if len(gparams) != len(it.args) or g.args.vararg or g.args.kwarg or g.args.kwonlyargs or any(isinstance(a, ast.Starred) for a in it.args):
+            return None
+        if not all(isinstance(a, (ast.Name, ast.Attribute, ast.Constant)) for a in it.args):
+            return None
+        sub = dict(zip(gparams, it.args))
+        glocals = {x.id for x in ast.walk(g) if isinstance(x, ast.Name) and isinstance(x.ctx, ast.Store)} - set(gparams)
+
+        class R(ast.NodeTransformer):
+            def visit_Name(self, n):
+                if n.id in sub and isinstance(n.ctx, ast.Load):
+                    return ast.copy_location(copy.deepcopy(sub[n.id]), n)
+                if n.id in glocals:
+                    return ast.copy_location(ast.Name(id='_fused_' + n.id, ctx=n.ctx), n)
+                return n
+
+            def visit_Return(self, n):
+                if n.value is not None and not (isinstance(n.value, ast.Constant) and n.value.value is None):
+                    raise ValueError('return with a value in a generator')
+                return ast.copy_location(ast.Break(), n)
+        try:
+            pre = [R().visit(copy.deepcopy(b)) for b in gbody[:-1]]
+            w2 = copy.deepcopy(w)
+            nb = []
+            for i, b in enumerate(w2.body):
+                if i == ys[0]:
+                    val = R().visit(b.value.value)
+                    nb.append(ast.copy_location(ast.Assign(targets=[copy.deepcopy(f.target)], value=val), b))
+                    for t in ast.walk(nb[-1].targets[0]):
+                        if isinstance(t, ast.Name):
+                            t.ctx = ast.Store()
+                    nb += f.body
+                else:
+                    nb.append(R().visit(b))
+            w2.body = nb
+        except ValueError:
+            return None
+        new = copy.copy(gen)
+        i = gen.body.index(f)
+        new.body = gen.body[:i] + pre + [w2] + gen.body[i + 1:]
+        ast.fix_missing_locations(new)
+        s.fused_from = (gen.name, g.name)
+        return new
 
     def reachable_methods(s):
         I = s.I
@@ -276,6 +364,19 @@ class TokenizerAnalysis:
             if isinstance(n, ast.AugAssign) and isinstance(n.target, ast.Attribute) and isinstance(n.op, ast.Add) \
                     and isinstance(n.value, ast.Constant) and n.value.value == 1 and n.target.attr in s.intf:
                 counter = n.target.attr
+        if counter is None:
+            # the read and the position counter may live in a helper called from the loop: the counter is the integer field
+            # incremented by 1 in the method that reads the data source
+            for mn in reach:
+                m_ = I.methods[mn]
+                reads_src = any(isinstance(x, ast.Call) and isinstance(x.func, ast.Attribute) and x.func.attr == 'read' and isinstance(x.func.value, ast.Name)
+                                and x.func.value.id in [a.arg for a in m_.args.args] for x in ast.walk(m_))
+                if not reads_src:
+                    continue
+                for n in ast.walk(m_):
+                    if isinstance(n, ast.AugAssign) and isinstance(n.target, ast.Attribute) and isinstance(n.op, ast.Add) \
+                            and isinstance(n.value, ast.Constant) and n.value.value == 1 and n.target.attr in s.intf:
+                        counter = n.target.attr
         posf = set([counter]) if counter else set()
         grew = True
         while grew:
